@@ -628,7 +628,11 @@ func (g *gen) stmt(depth int) []*Stmt {
 			if len(c.Vals) == 0 {
 				continue
 			}
-			c.Body = g.stmts(1+g.rng.IntN(2), 0)
+			cd := 0
+			if depth > 0 && g.rng.IntN(2) == 0 {
+				cd = depth - 1 // loops and ifs (with their own break/continue) inside a case body
+			}
+			c.Body = g.stmts(1+g.rng.IntN(2), cd)
 			s.Cases = append(s.Cases, c)
 		}
 		if g.rng.IntN(2) == 0 {
